@@ -9,7 +9,9 @@ RULE = ("Hypothesis over RPC-heavy API models (unary, server-, client-, bidi-str
         "types local, cross-file, or from dependency packages; keyword and transport-colliding RPC names) x inner scenarios "
         "(request valuations, reply valuations, stream lengths 0..3, request form message|dict|omitted, sync|asyncio client). "
         "Loopback grpc.server with handlers of the declared arity records path and raw bytes, decoded with the INPUT "
-        "descriptors. Non-trivial: method that is not (unary, local types, non-void, non-LRO); distinct = distinct "
+        "descriptors. Per service also a two-client history: after the first client was used, a second client instance on its "
+        "own channel / endpoint to a second loopback server (sync, asyncio, REST) must reach that server only. The API's own "
+        "message named Empty is generated as a response type. Non-trivial: method that is not (unary, local types, non-void, non-LRO); distinct = distinct "
         "(arity, void, lro, request origin, response origin).")
 ASSUMPTIONS = ["grpcio / google-api-core / proto-plus at /venv versions", "loopback server on 127.0.0.1, OS-chosen port"]
 
